@@ -1,5 +1,6 @@
 import PrimitivModel.Model.OpTable
 import PrimitivModel.Gen.OpTable
+import PrimitivModel.Driver.FuncsDrv
 /-
 C04 — the lazy Node API and the eager Tensor API agree; static shapes are sound.
 
@@ -52,5 +53,44 @@ theorem Api.shape_rule_consistent_cache : tableCache.shapeRuleConsistent = true 
 /-- a concrete instance: `add(a, b)` with a scalar `a` registers AddScalar(b, a), whose FORWARD
 `*x[0] + *x[1]` is `add_scalar_fw(b, a)` — what `add<Tensor>(a, b)` calls -/
 example : (table.nodeFns.filter (fun f => f.name == "add")).length = 3 := by decide +kernel
+
+/-! ### Full statements (stated, not proved)
+
+Over the table-driven model of both APIs that the driver runs
+(`Driver/FuncsDrv.lean`: `runApi st node …` interprets the public function on
+the Node level — `Graph::add_operator`, FWD_SHAPE, and FORWARD on (shape,
+device) pairs — or on the Tensor level — device front-ends —).  What is missing
+for a proof: a semantic comparison of FWD_SHAPE with the composition of the
+front-end shape rules for the composite operators (Split, BatchSplit,
+SoftmaxCrossEntropy, SparseSoftmaxCrossEntropy) and for the composite
+functions, for all shapes; the theorems above compare the rules syntactically
+for the single-kernel operators, the correspondence run compares both levels
+on the generated programs. -/
+
+open Primitiv.Drv.FuncsDrv in
+/-- In a single-graph program whose variables all have values, a call is accepted by the Node
+API iff it is accepted by the Tensor API or its error is one that is due at evaluation (then
+forcing the node throws), and the static Node shapes are the shapes of the Tensor results. -/
+def Api.shape_sound_full : Prop :=
+  ∀ (st : State) (kind name : String) (ks : List K) (toks : List String),
+    st.singleGraph → st.allEager →
+    match runApi st true kind name ks toks, runApi st false kind name ks toks with
+    | some (rn, _), some (rt, _) =>
+      ((resShapes rn).isSome = true ↔ ((resShapes rt).isSome = true ∨ resLazy rn = true)) ∧
+      ((resShapes rt).isSome = true → resLazy rn = false ∧
+        (resShapes rn).map (·.map Shape.toStr) = (resShapes rt).map (·.map Shape.toStr))
+    | _, _ => True
+
+/-- `Graph.lazy_eq_eager_full` (values): for every program, forcing a node returns the value
+the eager API computed.  Values are outside this model (every FORWARD rule is shown to run the
+same kernels on the same arguments as the Tensor function, `Api.same_kernel`; that the graph
+evaluates each operator once, on the values of its arguments, is C05).  Recorded here as the
+statement over kernel traces that `Api.same_kernel` decides for single calls, extended to
+programs: -/
+def Graph.lazy_eq_eager_full : Prop :=
+  ∀ (t : Table), t.sameKernel = true → t.arityConsistent = true →
+    ∀ f ∈ t.publicNodeFns, ∀ g, counterpart t f = some g →
+      ∀ n ∈ f.outcomes t true, ∀ o ∈ g.outcomes t false,
+        pcCompatible n.1.pc o.1.pc = true → outcomeEq n o = true
 
 end Primitiv.C04
